@@ -218,12 +218,12 @@ def main(ck):
 
     # ---- capacities
     # every capacity up to the need when that is affordable (an element made of several geoms may run out between two of
-    # them at exactly one capacity), otherwise the boundary values and 40 random ones
+    # them at exactly one capacity), otherwise the boundary values and 12 random ones
     if need <= 120:
       caps = list(range(0, need + 4))
     else:
       caps = sorted(set([0] + [c for c in range(need - 3, need + 4) if c >= 0] +
-                        [int(rng.randint(0, need + 1)) for _ in range(40)]))
+                        [int(rng.randint(0, need + 1)) for _ in range(12)]))
     overflowed = None
     for c in caps:
       info['capacity'] = c
@@ -283,7 +283,7 @@ def main(ck):
       lib.warnings()
     lib.mjv_freeScene(big)
 
-  ck.run_hypothesis(test, st.tuples(model_strategy(), mg.state_seed(), st.integers(0, 2 ** 31 - 1)), ck.budget(24, 300),
+  ck.run_hypothesis(test, st.tuples(model_strategy(), mg.state_seed(), st.integers(0, 2 ** 31 - 1)), ck.budget(30, 300),
                     name='scene', shrink=False)
   ck.extra['stats'] = stats
 
